@@ -15,7 +15,7 @@ import (
 func init() {
 	register(&Pack{ID: "C18", Run: runC18, Meta: core.Meta{
 		Level:       "other",
-		Explanation: "EXPLICITLY WEAK. The property is a refinement over unbounded operation histories resting on a heap-shape invariant (every level a sorted sub-chain of the level below) and on random node heights; that needs shape analysis and is NOT decided. Decided are necessary conditions visible in the shape of the code (staged package internal/maplike/skiplist), independent of how the loops are written (helpers are inlined with their loops; a segment between two loop heads is classified by the successor cand = cursor.fingers[index] it inspects). compare-normal-form - keys are touched only through the order trait's Compare; in the two traversal functions (discovered as the callees of Put/Remove and Get) the only key compared is that of cand, after cand != nil, and the advance condition normalises to 'node key < search key'; the two traversals agree (siblings); in Put/Get/Remove the match condition normalises to 'equal' on the node the traversal returned. level-loops - index = level counter + c for one constant c; every traversal enters its level loop with index = L - 1, L being len(head.fingers), len(path) or the constructor's level field of the list (starting lower leaves the upper path entries stale); a pass of the level loop begins iff index >= 0 and the loop is left iff index < 0 (decided by evaluating the branch atoms over a window of integers), 'less' keeps the counter, 'stop' (nil or not less) decrements it by exactly one at the level loop's head; Put splices exactly the levels 0 .. height-1 of the new node (trip count len(node.fingers), or the constructor's rank when that is the length of the finger slice it builds); a new node's height is a counter from 0 incremented only under counter < list.levels, hence <= len(path) = len(head.fingers); Remove's loop covers every level of the removed node. traversal-effects - the cursor starts at the head; 'less' sets cursor := cand (and refreshes a cached finger slice, related by the invariant cached = cursor.fingers that is assumed at the start of every segment and proved at its end); 'stop' keeps the cursor and, in the path-recording traversal, stores path[index] := cursor exactly once; no other store; the result is the level-0 successor of the final cursor (and the path). splice-order - node.fingers[l] is read from path[l].fingers[l] BEFORE path[l].fingers[l] := node. unlink - a finger is overwritten only where path[l].fingers[l] == v, with v.fingers[l] when l < len(v.fingers) else nil. results - Get/Remove return the value of the node their traversal returned only under 'equal', the zero value otherwise, and no other source of values exists (no cache); Put on 'equal' performs only v.val := val (an assertion exit guarded by 'new node's height > number of levels' is unreachable by the height bound and is no result). nil-guard - every field access through the node a traversal returned is dominated by the non-nil side of a test of that node (or by the true side of a package helper that answers true only for a non-nil argument). print-walk - the list's String() carries one node cursor that enters as list.head, is advanced to cursor.fingers[0], leaves the loop iff nil and is rendered in every pass; print-pure - String() keeps no state. That the level-0 chain is ascending and holds exactly the live keys rests on the undecided invariant.",
+		Explanation: "EXPLICITLY WEAK. The property is a refinement over unbounded operation histories resting on a heap-shape invariant (every level a sorted sub-chain of the level below) and on random node heights; that needs shape analysis and is NOT decided. Decided are necessary conditions visible in the shape of the code (staged package internal/maplike/skiplist), independent of how the loops are written (helpers are inlined with their loops; a segment between two loop heads is classified by the successor cand = cursor.fingers[index] it inspects). compare-normal-form - keys are touched only through the order trait's Compare; in the two traversal functions (discovered as the callees of Put/Remove and Get) the only key compared is that of cand, after cand != nil, and the advance condition normalises to 'node key < search key'; the two traversals agree (siblings); in Put/Get/Remove the match condition normalises to 'equal' on the node the traversal returned. level-loops - index = level counter + c for one constant c; every traversal enters its level loop with index = L - 1, L being len(head.fingers), len(path) or the constructor's level field of the list (starting lower leaves the upper path entries stale); a pass of the level loop begins iff index >= 0 and the loop is left iff index < 0 (decided by evaluating the branch atoms over a window of integers), 'less' keeps the counter, 'stop' (nil or not less) decrements it by exactly one at the level loop's head; Put splices exactly the levels 0 .. height-1 of the new node (trip count len(node.fingers), or the constructor's rank when that is the length of the finger slice it builds); a new node's height is a counter from 0 incremented only under counter < list.levels, hence <= len(path) = len(head.fingers); Remove's loop covers every level of the removed node. traversal-effects - the cursor starts at the head; 'less' sets cursor := cand (and refreshes a cached finger slice, related by the invariant cached = cursor.fingers that is assumed at the start of every segment and proved at its end); 'stop' keeps the cursor and, in the path-recording traversal, stores path[index] := cursor exactly once; no other store; the result is the level-0 successor of the final cursor (and the path). splice-order - node.fingers[l] is read from path[l].fingers[l] BEFORE path[l].fingers[l] := node. unlink - a finger is overwritten only where path[l].fingers[l] == v, with v.fingers[l] when l < len(v.fingers) else nil. results - Get/Remove return the value of the node their traversal returned only under 'equal', the zero value otherwise, and no other source of values exists (no cache); Put on 'equal' performs only v.val := val (an assertion exit guarded by 'new node's height > number of levels' is unreachable by the height bound and is no result). nil-guard - every field access through the node a traversal returned is dominated by the non-nil side of a test of that node (or by the true side of a package helper that answers true only for a non-nil argument). print-walk - the list's String() carries one node cursor that enters as list.head, is advanced to cursor.fingers[0], leaves the loop iff nil and is rendered in every pass; print-node - a node's String() reads its own key and, for the elements it loads from its finger slice, the pointed-to key only behind that element's nil test. print-pure - String() keeps no state. That the level-0 chain is ascending and holds exactly the live keys rests on the undecided invariant.",
 		RuleText:    "one obligation per (rule, function)",
 		Assumptions: []string{"the comparison trait is a total order (premise of the property)"},
 		TrustedBase: []string{"go/ssa", "path engine P"},
@@ -111,6 +111,19 @@ func runC18(c *core.Ctx) {
 	intFields = roles.ints
 	put, get, rem := iterMethod(c, nt, "Put"), iterMethod(c, nt, "Get"), iterMethod(c, nt, "Remove")
 	c.Doc("print-walk", 1, "the list's String() walks level 0 from the head until nil and renders every node")
+	c.Doc("print-node", 1, "a node prints its own key and, behind the finger's nil test, the key each finger points to")
+	{
+		found := false
+		for _, sf := range c.W.SourceFuncs(pkg) {
+			if sf.Name() == "String" && sf.Signature.Recv() != nil && len(sf.Params) > 0 && isNodePtrType(sf.Params[0].Type()) && nodeHasField(sf.Params[0].Type(), fKey) && nodeHasField(sf.Params[0].Type(), fFingers) {
+				found = true
+				printNode(c, sf)
+			}
+		}
+		if !found {
+			c.Ok("print-node", "skiplist", ctor.Pos(), "the node type has no String method: nodes are rendered by fmt's default")
+		}
+	}
 	if ps := iterMethod(c, nt, "String"); ps != nil {
 		printWalk(c, ps)
 	} else {
@@ -1326,4 +1339,133 @@ func trueImpliesNonNil(c *core.Ctx, h *ssa.Function, i int) bool {
 		}
 	}
 	return true
+}
+
+// nonNilBlocks: the blocks entered only from the non-nil side of a direct test of v against nil.
+func nonNilBlocks(v ssa.Value) []*ssa.BasicBlock {
+	var safe []*ssa.BasicBlock
+	if v.Referrers() == nil {
+		return nil
+	}
+	isNilC := func(x ssa.Value) bool { k, isK := x.(*ssa.Const); return isK && k.IsNil() }
+	for _, r := range *v.Referrers() {
+		bo, isB := r.(*ssa.BinOp)
+		if !isB || !(bo.Op == token.NEQ || bo.Op == token.EQL) || !(bo.X == v && isNilC(bo.Y) || bo.Y == v && isNilC(bo.X)) {
+			continue
+		}
+		for _, r2 := range *bo.Referrers() {
+			if iff, isIf := r2.(*ssa.If); isIf {
+				succ := iff.Block().Succs[0]
+				if bo.Op == token.EQL {
+					succ = iff.Block().Succs[1]
+				}
+				if len(succ.Preds) == 1 {
+					safe = append(safe, succ)
+				}
+			}
+		}
+	}
+	return safe
+}
+
+// printNode: "... with forward pointers only to larger keys": what a node prints is its own key and, for every finger,
+// the key of the node that finger points to (nil fingers without a dereference). Decided on SSA: the node's String()
+// reads its receiver's key; it loads elements of the receiver's finger slice; every key read through such an element is
+// behind that element's nil test, and at least one exists.
+func printNode(c *core.Ctx, fn *ssa.Function) {
+	const rule = "print-node"
+	name := "skiplist." + fnLabel(fn)
+	if len(fn.Params) == 0 {
+		return
+	}
+	recv := fn.Params[0]
+	fieldName := func(fa *ssa.FieldAddr) string {
+		pt, ok := fa.X.Type().Underlying().(*types.Pointer)
+		if !ok {
+			return ""
+		}
+		st, ok := pt.Elem().Underlying().(*types.Struct)
+		if !ok || fa.Field >= st.NumFields() {
+			return ""
+		}
+		return st.Field(fa.Field).Name()
+	}
+	ownKey := false
+	var elems []ssa.Value
+	for _, b := range fn.Blocks {
+		for _, in := range b.Instrs {
+			switch x := in.(type) {
+			case *ssa.FieldAddr:
+				if x.X == recv && fieldName(x) == fKey {
+					ownKey = true
+				}
+			case *ssa.UnOp:
+				if x.Op != token.MUL || !isNodePtrType(x.Type()) {
+					continue
+				}
+				if ia, isIA := x.X.(*ssa.IndexAddr); isIA {
+					if ld, isLd := ia.X.(*ssa.UnOp); isLd && ld.Op == token.MUL {
+						if fa, isFA := ld.X.(*ssa.FieldAddr); isFA && fa.X == recv && fieldName(fa) == fFingers {
+							elems = append(elems, x)
+						}
+					}
+				}
+			}
+		}
+	}
+	if !ownKey {
+		c.Fail(rule, name, fn.Pos(), "the node's String() never reads the node's own key")
+		return
+	}
+	if len(elems) == 0 {
+		c.Undecided(rule, name, fn.Pos(), "no element of the receiver's finger slice is loaded: the rendering of the forward pointers is not of the recognised form")
+		return
+	}
+	ok, keys := true, 0
+	for _, x := range elems {
+		safe := nonNilBlocks(x)
+		for _, r := range *x.Referrers() {
+			fa, isFA := r.(*ssa.FieldAddr)
+			if !isFA || fa.X != x {
+				continue
+			}
+			if fieldName(fa) == fKey {
+				keys++
+			}
+			guarded := false
+			for _, sb := range safe {
+				if sb == fa.Block() || sb.Dominates(fa.Block()) {
+					guarded = true
+				}
+			}
+			if !guarded {
+				ok = false
+				c.Fail(rule, name, fa.Pos(), "a finger is dereferenced where it is not known to be non-nil (the top fingers of the last nodes are nil): printing panics or shows nil fingers as keys")
+			}
+		}
+	}
+	if ok && keys == 0 {
+		ok = false
+		c.Fail(rule, name, fn.Pos(), "the keys the fingers point to are never read: the forward pointers are not rendered")
+	}
+	if ok {
+		c.Ok(rule, name, fn.Pos(), fmt.Sprintf("own key; %d finger loads, the pointed-to key read behind the finger's nil test", len(elems)))
+	}
+}
+
+func nodeHasField(t types.Type, name string) bool {
+	pt, ok := t.Underlying().(*types.Pointer)
+	if !ok {
+		return false
+	}
+	st, ok := pt.Elem().Underlying().(*types.Struct)
+	if !ok {
+		return false
+	}
+	for i := 0; i < st.NumFields(); i++ {
+		if st.Field(i).Name() == name {
+			return true
+		}
+	}
+	return false
 }
